@@ -393,7 +393,7 @@ fn enum_c08(ctx: &mut Ctx, seed: u64) -> Result<(), String> {
                 for perm in [true, false] {
                     let mut c = base.clone();
                     c.config = "hard-write".into();
-                    c.wplan.at_offset.push((k, Act::Err(ErrKind::ALL[(k % 6) as usize], perm)));
+                    c.wplan.at_offset.push((k, Act::Err(ErrKind::ALL[(k % 8) as usize], perm)));
                     ctx.eval(&c, &mut env);
                 }
             }
@@ -403,7 +403,7 @@ fn enum_c08(ctx: &mut Ctx, seed: u64) -> Result<(), String> {
             for &k in &points {
                 let mut c = base.clone();
                 c.config = "hard-read".into();
-                c.rplan.at_offset.push((k, Act::Err(ErrKind::ALL[(k % 6) as usize], k % 2 == 0)));
+                c.rplan.at_offset.push((k, Act::Err(ErrKind::ALL[(k % 8) as usize], k % 2 == 0)));
                 ctx.eval(&c, &mut env);
             }
         }
